@@ -204,8 +204,10 @@ def scaling_monitor(R, ctx):
         for (n1, b1, d1), (n2, b2, d2) in zip(rows, rows[1:]):
             if d2 > 0.6 and d2 > 3.0 * d1 + 0.2:
                 ctx.failure("superlinear", "%s: decoding %d keys (%d bytes) took %.2f s of CPU time, %d keys (%d bytes) took %.2f s: doubling the "
-                            "input multiplied the work by %.1f - the keys share one hash and every insertion compares with all earlier ones" %
-                            (name, n1, b1, d1, n2, b2, d2, d2 / max(d1, 1e-9)),
+                            "input multiplied the work by %.1f - %s" %
+                            (name, n1, b1, d1, n2, b2, d2, d2 / max(d1, 1e-9),
+                             "the decoder goes over the same bytes again and again (harness/props/c14.py hello_chain)" if name == "hello-chain"
+                             else "the keys share one hash and every insertion compares with all earlier ones"),
                             {"case": ["case mon", R.reg_line, "dec big"], "at": 1, "label": name, "bytes": b2, "keys": n2,
                              "how": "harness/props/c14.py flood(R, kind, n_keys)"})
                 return
